@@ -62,6 +62,13 @@ func directed() [][]Op {
 		{wsv(0, clusterIP), wsl(0, one(0, 1, 0, 0)), drain(), wsl(0, SliceV{Svc: 0, NPorts: 1}), drain()},
 		// 22: same, the slice is deleted
 		{wsv(0, clusterIP), wsl(0, one(0, 1, 0, 0)), drain(), del(1, 0), drain()},
+		// 23: label edit on a NOT-ready pod that the service selects (PodCache.onEvent takes the delete branch: no recompute)
+		{wsv(1, clusterIP), wp(0, PodV{IP: 1, Ready: false, Lbl: 0, SA: 1}), wsl(0, one(1, 1, 0, 1)), drain(),
+			wp(0, PodV{IP: 1, Ready: false, Lbl: 1, SA: 1}), drain()},
+		// 24: one pod update changes the IP and loses readiness: deleteIP(new ip) misses, the old IP entry stays
+		{wp(0, ready(1, 0, 1)), drain(), wp(0, PodV{IP: 2, Ready: false, Lbl: 0, SA: 1}), drain()},
+		// 25: the same IP change while staying ready is handled (addPod cleans the old entry)
+		{wp(0, ready(1, 0, 1)), drain(), wp(0, ready(2, 0, 1)), drain()},
 	}
 }
 
